@@ -136,11 +136,11 @@ impl Property for C08 {
     }
     fn enumerate(&self, quick: bool) -> Box<dyn Iterator<Item = Case> + Send + '_> {
         if quick {
-            Box::new([FamId::K256, FamId::Ed, FamId::CombinedSecp].into_iter().flat_map(|f| history::exhaustive(f, 2)).chain(history::depth1_rest(&[FamId::K256, FamId::Ed, FamId::CombinedSecp])).map(Case::Hist))
+            Box::new([FamId::K256, FamId::Ed, FamId::CombinedSecp].into_iter().flat_map(|f| history::exhaustive(f, 2)).chain(history::depth1_rest(&[FamId::K256, FamId::Ed, FamId::CombinedSecp])).chain(history::long_repeats(true)).map(Case::Hist))
         } else {
             let d3 = [FamId::Libsecp].into_iter().flat_map(|f| history::exhaustive(f, 3));
             let d2 = ALL_FAMS.into_iter().filter(|f| *f != FamId::Libsecp).flat_map(|f| history::exhaustive(f, 2));
-            Box::new(d3.chain(d2).map(Case::Hist))
+            Box::new(d3.chain(d2).chain(history::long_repeats(false)).map(Case::Hist))
         }
     }
     fn fuzz_plans(&self) -> Vec<(&'static str, u64)> {
